@@ -207,8 +207,8 @@ class MillerDomain:
             return ("cond", "iszero", None, False)
         if n == "is_empty" and len(a) == 1 and isinstance(a[0], Vec):
             return len(a[0].items) == 0
-        if n == "len" and len(a) == 1 and isinstance(a[0], Vec):
-            return len(a[0].items)
+        if n == "len" and len(a) == 1 and isinstance(a[0], (Vec, Tup)):
+            return len(a[0].items)          # (the literal schedule walked by index: `for k in 0..TABLE.len()`)
         if n == "neg" and len(a) == 1 and isinstance(a[0], Pt):
             return Pt(pscale(a[0].form, -1))
         if n == "double" and len(a) == 1 and isinstance(a[0], Pt):
